@@ -17,7 +17,7 @@ func Run(seed int64, n int, outDir string) error {
 	if err := w.History(cf, st, n); err != nil {
 		return err
 	}
-	if _, err := cf.Write(outDir, "cases", 40); err != nil {
+	if _, err := cf.Write(outDir, "cases", 12); err != nil {
 		return err
 	}
 	return st.Write(outDir)
